@@ -264,7 +264,8 @@ inductive Same : Val → Val → Prop where
   | range (a b c) : Same (.range a b c) (.range a b c)
   | builtin (n) : Same (.builtin n) (.builtin n)
   | cls (n) : Same (.cls n) (.cls n)
-  | opaque (c i k h) : Same (.opaque c i k h) (.opaque c i k h)   -- the very object
+  | opaque (c i k h) : c ≠ "<not-a-literal>" →                    -- the very object (never the
+      Same (.opaque c i k h) (.opaque c i k h)                     --  `garbage` token of a failed evaluation)
 inductive SameL : List Val → List Val → Prop where
   | nil : SameL [] []
   | cons : Same x y → SameL xs ys → SameL (x :: xs) (y :: ys)
